@@ -5,6 +5,8 @@ import (
 	"encoding/json"
 	"fmt"
 	gofs "io/fs"
+	"os"
+	"path/filepath"
 	"strings"
 
 	"github.com/moby/patternmatcher"
@@ -375,14 +377,25 @@ func judgeC10Raw(c c10Case) (string, string) {
 		if err := fsmodel.Materialize(c.Tree, dir); err != nil {
 			return "infra", err.Error()
 		}
-		d, err := fsutil.NewFS(dir)
+		// every other on-disk case reaches its root through a symlink (/tmp -> private/tmp, current -> releases/7)
+		arg := dir
+		if evid.H(c.String())%2 == 1 {
+			lnk := dir + ".lnk"
+			os.Remove(lnk)
+			if err := os.Symlink(filepath.Base(dir), lnk); err == nil {
+				defer os.Remove(lnk)
+				arg = lnk
+			}
+		}
+		d, err := fsutil.NewFS(arg)
 		if err != nil {
 			return "infra", err.Error()
 		}
 		under = d
 	}
 	if c.Multi {
-		comp, err := compositeOf(c.Tree, 0)
+		// the sub-roots are handed over in an order that depends on the case: the constructor sorts them
+		comp, err := compositeOf(c.Tree, int(evid.H(c.String())%6))
 		if err != nil {
 			return "infra", err.Error()
 		}
